@@ -120,7 +120,10 @@ Definition to_time_struct (swapped : bool) (v : validity_cfg) (now : wall) : opt
       end
     | [], (_ :: _) as du =>
       match parse_duration du with
-      | Some (y, m, d) => Some (mkValidity frm (add_date frm y m d) true has_from)
+      | Some (y, m, d) =>
+        (* a component that does not fit an int or exceeds what X.509 dates can reach is a configuration error *)
+        if (y <=? 9999) && (m <=? 9999 * 12) && (d <=? 9999 * 366)
+        then Some (mkValidity frm (add_date frm y m d) true has_from) else None
       | None => None
       end
     | [], [] => Some (mkValidity frm (add_date frm 5 0 0) has_from has_from)
